@@ -559,6 +559,13 @@ func (rw *rewriter) call(n *ast.CallExpr) ast.Expr {
 		case "Go":
 			return rw.rtcall("WgGo", rw.site(n), recv, n.Args[0])
 		}
+	case "Pool":
+		switch m {
+		case "Get":
+			return rw.rtcall("PoolGet", rw.site(n), recv)
+		case "Put":
+			return rw.rtcall("PoolPut", rw.site(n), recv, n.Args[0])
+		}
 	case "Cond":
 		fatalf("%s: sync.Cond is not supported", rw.fset.Position(n.Pos()))
 	}
